@@ -559,8 +559,34 @@ class Packed:
         return None
 
 
+def _table_not_stale(ctx, spec, ptrs, unmodelled=None):
+    """every pointer local named in a table exists (as a pointer) in some overload of its member, and every pointer local of
+    a contracted member is either in the table or declared unmodelled with a reason: a renamed, removed or new pointer must not
+    silently drop its sites from the proof"""
+    from .zone import zone_is_ptr as _isp
+    unmodelled = unmodelled or {}
+    cls = spec.cls
+    members = set(k.split('/')[0] for k in spec.members) | set(ptrs)
+    for member in sorted(members):
+        names = ptrs.get(member, {})
+        fns = [f for f in ctx.F.concrete() if f.cls == cls and f.name == member and f.cfg]
+        if not fns:
+            if member in ptrs:
+                raise AnalysisBroken('%s::%s (pointer table) is not instantiated' % (cls, member))
+            continue
+        for nm in names:
+            if not any(lv['name'] == nm and _isp(lv['type']) for f in fns for lv in f.locals.values()):
+                raise AnalysisBroken('%s::%s: the pointer table names `%s`, which is not a pointer variable of that member any more' % (cls, member, nm))
+        for f in fns:
+            for lv in f.locals.values():
+                if _isp(lv['type']) and lv['name'] not in names and lv['name'] not in unmodelled.get(member, {}) and \
+                        any(t in lv['type'] for t in ('double', 'float', 'complex', 'unsigned char')):
+                    raise AnalysisBroken('%s::%s: pointer variable `%s` is neither in the pointer table nor declared unmodelled: its accesses would not be checked' % (cls, member, lv['name']))
+
+
 def verify_packed(ctx, spec, pk, check_sites, rule):
     """contracts.verify plus the obligations of the packed pointer model (see Packed)."""
+    _table_not_stale(ctx, spec, pk.ptr_cols, getattr(pk, 'unmodelled', None))
     N = {pk.n: 1, 1: 0}
     fns = {}
     for fn in ctx.F.concrete():
@@ -813,6 +839,7 @@ def verify_dense(ctx, spec, dense, check_sites, rule, min_sites=0):
             if vid in fn.params:
                 st.d.assign_var_plus(('v', vid), 'Z', 0)
                 st.d.assign_var_plus(('pc', vid), 'Z', 0)
+    _table_not_stale(ctx, spec, dense.ptrs, getattr(dense, 'unmodelled', None))
     try:
         return verify(ctx, spec, check_sites, rule, min_sites=min_sites, extra_sites=dense.sites(resolve), entry_extra=entry_extra)
     finally:
